@@ -69,6 +69,9 @@ broadcast use {axiom_string_eq_spec, axiom_string_obeys_eq, axiom_to_string_stri
 //%include factory_key.rs
 //%include mlem_key.rs
 //%include factory_contract.rs
+//%include mlem_pages.rs
+//%include factory_pages.rs
+//%include factory_queries.rs
 }
 } // verus!
 fn main() {}
